@@ -101,7 +101,21 @@ def _run_filter(case, ctx, which):
     if which == 'feedback':
         pva0 = sc.pva0.copy()
         pva0['VD'] = 7.5                       # supplied vertical velocity must be discarded
-        res = ctx.sut(filters.run_feedback_filter, pva0, 5.0, 0.5, 0.5, 1.0, sc.increments, **kwargs)
+        # half of the cases start far from the truth (1 m .. 2 km horizontally, position sigma to match), so that the first
+        # corrections are large: the frozen altitude must survive a correction of any size
+        rs = np.random.RandomState(case['sub'] ^ 0x13c)
+        pos_sd = 5.0
+        if rs.rand() < 0.5:
+            d = 10 ** rs.uniform(0, 3.3)
+            az = rs.uniform(0, 2 * np.pi)
+            pva0['lat'] += d * np.cos(az) / 111e3
+            pva0['lon'] += d * np.sin(az) / (111e3 * np.cos(np.radians(pva0['lat'])))
+            pva0['lon'] = (pva0['lon'] + 180) % 360 - 180
+            pos_sd = max(5.0, d)
+            ctx.label('start_offset=' + ('<100m' if d < 100 else '>=100m'))
+        else:
+            ctx.label('start_offset=none')
+        res = ctx.sut(filters.run_feedback_filter, pva0, pos_sd, 0.5, 0.5, 1.0, sc.increments, **kwargs)
         tr = res.trajectory
         ctx.check(len(tr) == len(sc.t), 'row_count', f'{len(tr)} vs {len(sc.t)}')
         bad = np.flatnonzero(tr.VD.values != 0.0)
